@@ -501,6 +501,7 @@ def configs(tier):
 
     out = [dict(which=w) for w in ("autoreset_fixed", "autoreset_fresh", "log", "squash", "nosquash")]
     out += [dict(which="norm_obs", B=2, D=1), dict(which="norm_reward", B=2, D=1)]
+    out += [dict(which="norm_obs", B=1, D=1), dict(which="norm_reward", B=1, D=1)]  # a single vectorised environment (batch statistics of one sample)
     out += [dict(which="env_step", inst=cg.instances("quick", small=True)[0])]
     if tier == "thorough":
         out += [dict(which="norm_obs", B=3, D=2), dict(which="norm_reward", B=3, D=1), dict(which="squash", D=2), dict(which="autoreset_fixed", D=2)]
@@ -520,7 +521,7 @@ def run(rep):
                rl.NormalizeVecReward.step)
     cfgs = configs(rep.tier)
     rep.configs = cfgs
-    rep.bounds = dict(batch=[2, 3], obs_dim=[1, 2], per_query_cap_s=120 if rep.tier == "quick" else 600)
+    rep.bounds = dict(batch=[1, 2, 3], obs_dim=[1, 2], per_query_cap_s=120 if rep.tier == "quick" else 600)
     rep.assumptions = ["floats as reals", "axioms used only where listed in the obligation names: |tanh x| <= 1, atanh(tanh x) = x, tanh(atanh y) = y",
                        "sqrt is an uninterpreted function (both sides apply it to the same argument)",
                        "running statistics are claimed as the exact pooled-moment merge law relative to the wrapper's 1e-4 pseudo-count prior",
